@@ -22,6 +22,9 @@ def run(ctx):
         parts = 8
         for i in range(parts):
             jobs.append(dict(ctx=ctx, binary=binary, name="d3_%d" % i, stacks=st[i::parts], maxcalls=4, execs=2, outs=seq.OUTS3, workers=8, entries=2))
+    # a rate limiter with short periods under retries that wait: refusals and admissions across period boundaries
+    rlt = [["rpW", "rlP"], ["rlP", "rpW"], ["rpW", "rlP", "rlP"], ["rpW", "fbH", "rlP"], ["rpD", "rlP"], ["rpW", "rlP", "cbA"], ["rpW", "cbA", "rlP"]]
+    jobs.append(dict(ctx=ctx, binary=binary, name="rlt", stacks=rlt, maxcalls=4, execs=2 if quick else 3, outs=seq.OUTS3, workers=4))
     mism = seq.run_jobs(ctx, jobs, par=2)
     seq.report(ctx, mism, lambda m: m["tag"] in TAGS)
     # nesting with the two policies that need time and threads (Timeout firing, Hedge): the state of the stateful policies
